@@ -106,7 +106,17 @@ func LoadContracts(repo string) (*ContractSet, error) {
 	cs := &ContractSet{Funcs: map[string]*Contract{}, Pures: map[string]*PureFn{}}
 	files, _ := filepath.Glob(filepath.Join(repo, "pkg", "*", "zz_contracts_verif*.go"))
 	sort.Strings(files)
+	skip := os.Getenv("GOVC_SKIP") // comma-separated substrings of contract file names to leave out (work in progress)
 	for _, f := range files {
+		skipped := false
+		for _, sk := range strings.Split(skip, ",") {
+			if sk != "" && strings.Contains(filepath.Base(f), sk) {
+				skipped = true
+			}
+		}
+		if skipped {
+			continue
+		}
 		if err := cs.loadFile(f); err != nil {
 			return nil, err
 		}
